@@ -163,6 +163,7 @@ func vhAssertEnds(s Stack, fifo bool, model []any, id string) {
 
 // p: n, slack, m, op
 func VH_C01_Step(p []int) {
+	vhPreMode = 2
 	pre := vhArbitraryStack(p[0], p[1], true, vhOptMask&^ronly, 2, 3)
 	if len(p) > 4 && p[4] == 1 {
 		// equal values at several positions and a value that cannot be
